@@ -46,7 +46,12 @@ class Proc:
     def __init__(self, cmd, env=None, timeout=600):
         e = dict(os.environ)
         e.update(env or {})
-        self.p = subprocess.Popen(cmd, stdin=subprocess.PIPE, stdout=subprocess.PIPE, stderr=subprocess.PIPE, text=True, env=e)
+        # stderr goes to a file: an undrained pipe fills up after ~64 KB of warnings and blocks the child for good
+        import tempfile
+        os.makedirs(os.path.join(common.VERIF, ".cache", "logs"), exist_ok=True)
+        self.errf = tempfile.NamedTemporaryFile("w+", dir=os.path.join(common.VERIF, ".cache", "logs"), prefix="proc_", suffix=".err",
+                                                delete=True)
+        self.p = subprocess.Popen(cmd, stdin=subprocess.PIPE, stdout=subprocess.PIPE, stderr=self.errf, text=True, env=e)
         self.timeout = timeout
         self.cmd = cmd
         self.log = []
@@ -84,7 +89,9 @@ class Proc:
         except subprocess.TimeoutExpired:
             self.p.kill()
         try:
-            err = self.p.stderr.read()
+            self.errf.seek(0)
+            err = self.errf.read()[-20000:]
+            self.errf.close()
         except Exception:
             pass
         return self.p.returncode, err
